@@ -15,7 +15,7 @@ open UgoVerif UgoVerif.Go UgoVerif.Ast
     constant index of every CONSTANT / CLOSURE instruction is below the size of the constant pool
     (`StreamOK constants.size`) -/
 def WFMain (bc : Bytecode) : Prop :=
-  bc.main.numLocals ≤ maxNumLocals ∧ FinStream bc.constants.size bc.main.insts ∧ ConstsOK bc.constants
+  bc.main.numLocals ≤ maxNumLocals ∧ FinFn bc.constants.size bc.main ∧ ConstsOK bc.constants
 
 theorem goodP_compileProg (file : List Stmt) (hok : okSs file = true) : GoodP WFMain (compileProg file) := by
   have h1 := good_compileStmts file hok
